@@ -49,7 +49,7 @@ package boltz
 //@   errflow
 //@   nosafety
 //@   waive immutable two-step construction: the state was allocated by the caller just before and is filled here before anything else sees it
-//@   modifies *, self.Ctx
+//@   modifies *, self.Ctx, self.InitialState
 //@   ensures[context-set] self.Ctx == ctx
 
 //@ func (*EntityChangeState).loadFinalState
